@@ -6,7 +6,8 @@ def load(p): return json.load(open(p)) if os.path.exists(p) else {}
 ROUNDS=[(1,'r','REFACTOR_RESULTS.json',None,''),(2,'q','REFACTOR2_RESULTS.json','REFACTOR2_BASELINE.json',' (held-out)'),
         (3,'s','REFACTOR3_RESULTS.json','REFACTOR3_BASELINE.json',' (held-out 2)'),(4,'u','REFACTOR4_RESULTS.json','REFACTOR4_BASELINE.json',' (held-out 3)'),
         (5,'v','REFACTOR5_RESULTS.json','REFACTOR5_BASELINE.json',' (held-out 4, harder brief)'),
-        (6,'w','REFACTOR6_RESULTS.json','REFACTOR6_BASELINE.json',' (held-out 5, brief of rounds 3-4)')]
+        (6,'w','REFACTOR6_RESULTS.json','REFACTOR6_BASELINE.json',' (held-out 5, brief of rounds 3-4)'),
+        (7,'x','REFACTOR7_RESULTS.json','REFACTOR7_BASELINE.json',' (held-out 6, last session: strconv accumulators and binary back ends, aimed at R-OVF / R-EOFKIND)')]
 RES={rd:load('/verif/seeded/'+f) for rd,_,f,_,_ in ROUNDS}
 BASE={rd:(load('/verif/seeded/'+b) if b else {}) for rd,_,_,b,_ in ROUNDS}
 def first_of(rd,n):
